@@ -969,15 +969,14 @@ class Exec:
             h2 = self.methods.get((base.cls, attr))
             if h2 is not None:
                 return h2(self, base, n, env, fr)
-            if base.cls == "DataArray" and isinstance(base.fields.get("attrs"), SymDict) and attr.startswith("_") is False or \
-                    (base.cls == "DataArray" and isinstance(base.fields.get("attrs"), SymDict) and attr in base.fields["attrs"].entries):
-                # xarray: da.name_of_attribute reads da.attrs[...] (AttributeError if there is no such attribute)
+            if base.cls == "DataArray" and isinstance(base.fields.get("attrs"), SymDict) and attr in base.fields["attrs"].entries:
+                # xarray: da.name_of_attribute reads da.attrs[...] (AttributeError if there is no such attribute); only for
+                # attribute names the contract (or the code so far) has put into the attribute mapping
                 ad = base.fields["attrs"]
-                if attr in ad.entries or not ad.closed:
-                    p_ = ad.present(attr)
-                    if self.decide(p_):
-                        return self.load_subscript(ad, (attr,), n, env, fr)
-                    raise PathRaise("AttributeError", n)
+                p_ = ad.present(attr)
+                if self.decide(p_):
+                    return self.load_subscript(ad, (attr,), n, env, fr)
+                raise PathRaise("AttributeError", n)
             if base.cls == "Dataset" and attr in base.fields["vars"].entries and base.fields["vars"].entries[attr][0] is True:
                 return self.load_subscript(base.fields["vars"], (attr,), n, env, fr)       # xarray: ds.name is ds["name"]
             if self.abstract:
